@@ -73,6 +73,7 @@ def worker(args):
     if hasattr(mod, "setup"):
         mod.setup(ctx)
     max_viol = 200
+    per_sig = {}
     try:
         for case in mod.cases(args.tier, args.seed, i, n):
             try:
@@ -82,7 +83,9 @@ def worker(args):
                     ctx.errors.append(json.dumps(case, default=repr)[:300] + "\n" + traceback.format_exc()[-2500:])
                 continue
             for v in vs:
-                if len(ctx.violations) < max_viol:
+                # keep a few witnesses per mechanism signature (a flood of one signature must not hide the others)
+                per_sig[v["sig"]] = per_sig.get(v["sig"], 0) + 1
+                if per_sig[v["sig"]] <= 3 and len(ctx.violations) < max_viol:
                     ctx.violations.append(dict(case=case, kind=v["kind"], sig=v["sig"], detail=v["detail"]))
                 else:
                     ctx.note("violations_not_stored")
